@@ -23,7 +23,7 @@ func TestBinary(t *testing.T) {
 	}
 	pbt.Main(t, pbt.Spec[histeng.History]{ID: "C03",
 		Gen: func(t *rapid.T) histeng.History {
-			w := histeng.GenWS(t, histeng.Profile{MaxTargets: 10, DirOutputs: true, Workers: []int{1, 2, 3}})
+			w := histeng.GenWS(t, histeng.Profile{MaxTargets: 10, DirOutputs: true, Workers: []int{1, 2, 3}, Groups: true})
 			for i := range w.Targets {
 				w.Targets[i].SlowMs = rapid.SampledFrom([]int{0, 120, 250}).Draw(t, "slow")
 				if rapid.IntRange(0, 2).Draw(t, "loosen") > 0 && len(w.Targets[i].Deps) > 1 {
